@@ -10,43 +10,43 @@ SYMX_NOTE = ("Trusted: rustc; the symbolic Uint128 shim (every run re-executes e
              "scenario templates bound history length and which quantities are symbolic (listed per scenario in the evidence).")
 
 CLAIMED = {
-    "C01": ("model_checking", "symbolic execution of the real vAMM contract through a symbolic Uint128 + SMT (z3) proof of k-monotonicity, base+net=initial and failed-swap-unchanged for ALL reserve pairs/amounts/limits; 1-3 step sequences",
+    "C01": ("model_checking", "symbolic execution of the real vAMM contract through a symbolic Uint128 + SMT (z3) proof of k-monotonicity, base+net=initial and failed-swap-unchanged for ALL reserve pairs/amounts/limits; 1-3 step sequences; sequences and engine histories in which the owner closes and re-opens the market between trades",
             "DESIGN.md §4 C01"),
-    "C02": ("model_checking", "engine histories (open / increase / reduce / reverse / close / full and partial liquidation / funding / deposit / withdraw, long and short, cw20 and native, with fees) executed symbolically through engine -> vAMM -> reply; after EVERY transaction (successful or failed) z3 proves sum of signed position sizes == vAMM net position for all symbolic amounts on the path",
+    "C02": ("model_checking", "engine histories (open / increase / reduce / reverse / close / full and partial liquidation / funding / deposit / withdraw, long and short, cw20 and native, with fees) executed symbolically through engine -> vAMM -> reply; after EVERY transaction (successful or failed) z3 proves sum of signed position sizes == vAMM net position for all symbolic amounts on the path; owner interludes before the transaction under test (market closed and re-opened, out-of-range partial-liquidation ratio sent) with the liquidated remainder topped up and closed afterwards",
             "DESIGN.md §4 C02"),
-    "C03": ("model_checking", "same histories; per transaction z3 proves total collateral over all accounts unchanged, only sender/engine/insurance fund/fee pool balances move, a liquidated trader receives nothing, failed transactions move nothing; native variants with a symbolic amount of coins attached to messages that need none and to DepositMargin; a vAMM whose own insurance-fund field points at an outsider; balances of vAMMs and price feed are part of the conserved total",
+    "C03": ("model_checking", "same histories; per transaction z3 proves total collateral over all accounts unchanged, only sender/engine/insurance fund/fee pool balances move, a liquidated trader receives nothing, failed transactions move nothing; native variants with a symbolic amount of coins attached to messages that need none and to DepositMargin; a vAMM whose own insurance-fund field points at an outsider; balances of vAMMs and price feed are part of the conserved total; accounts without a role sending the fee pool's SendToken (recipient: owner / third party / self) and the insurance fund's Withdraw; the engine re-pointed at a second fee pool (the old one is no longer a permitted recipient)",
             "DESIGN.md §4 C03"),
-    "C04": ("model_checking", "closes after price moves by a symbolic counter-trade (healthy / zero-equity / bad-debt regimes at 10x), after funding with a symbolic oracle price, after a partial close, with and without fees: z3 proves payout == margin + (vAMM quote - open notional, signed) - funding (from the stored checkpoint AND from the harness's own ledger of the last charge) - quoted fees, the position is gone, negative equity is rejected, and for every trader-initiated operation the insurance fund's loss <= the rise in recorded prepaid bad debt",
+    "C04": ("model_checking", "closes after price moves by a symbolic counter-trade (healthy / zero-equity / bad-debt regimes at 10x), after funding with a symbolic oracle price, after a partial close, with and without fees: z3 proves payout == margin + (vAMM quote - open notional, signed) - funding (from the stored checkpoint AND from the harness's own ledger of the last charge) - quoted fees, the position is gone, negative equity is rejected, and for every trader-initiated operation the insurance fund's loss <= the rise in recorded prepaid bad debt; a life-time ledger per position (wallet when last flat, quote its own trades moved, fees, funding by the harness's ledger) for complete round trips; two settlements whose premiums may cancel exactly with a position opened in between",
             "DESIGN.md §4 C04"),
-    "C05": ("model_checking", "margin, leverage (incl. non-integer multiples and the 1/initial boundary) and initial/maintenance ratios symbolic: after every successful open (fresh, increase, reduce, reverse, after funding) MarginRatio >= maintenance and equals the ratio recomputed by the harness from Position/OutputAmount/OutputTwap/cumulative premium; leverage outside [1, 1/initial] rejected; withdraw/deposit accounting and non-negative free collateral; native DepositMargin with the attached coins a variable of their own",
+    "C05": ("model_checking", "margin, leverage (incl. non-integer multiples and the 1/initial boundary) and initial/maintenance ratios symbolic: after every successful open (fresh, increase, reduce, reverse, after funding) MarginRatio >= maintenance and equals the ratio recomputed by the harness from Position/OutputAmount/OutputTwap/cumulative premium; leverage outside [1, 1/initial] rejected; withdraw/deposit accounting and non-negative free collateral; native DepositMargin with the attached coins a variable of their own; after a withdrawal free collateral is RECOMPUTED from Position/OutputAmount/OutputTwap/Config and the funding charged is taken from the harness's charged-at ledger (withdrawal after a partial close that settled funding)",
             "DESIGN.md §4 C05"),
-    "C06": ("model_checking", "liquidations in three seeded regimes with maintenance ratio, liquidation fee, partial-liquidation ratio, oracle price (both sides of the 10% spread boundary) and counter-trade size symbolic: success only if the margin ratio as defined for liquidation (recomputed from primitives observed before the call) <= maintenance; exact payouts for full and partial liquidation, nothing to the trader, size reduced by exactly the fraction, never flipped or grown",
+    "C06": ("model_checking", "liquidations in three seeded regimes with maintenance ratio, liquidation fee, partial-liquidation ratio, oracle price (both sides of the 10% spread boundary) and counter-trade size symbolic: success only if the margin ratio as defined for liquidation (recomputed from primitives observed before the call) <= maintenance; exact payouts for full and partial liquidation, nothing to the trader, size reduced by exactly the fraction, never flipped or grown; owner interludes (out-of-range partial ratio sent, market re-opened, price feed replaced with the old feed left at a stale price)",
             "DESIGN.md §4 C06"),
-    "C07": ("model_checking", "same liquidation histories: a failing Liquidate is proved to happen only when the position is NOT under-margined (or the fee is zero) for every value on the path; failures with the precondition satisfiable are counterexamples (one known finding: partial-liquidation margin underflow); band templates (symbolic fluctuation limit, a mover trade in the liquidation block explored exhaustively, pools priced 10 and 0.1) with 'already outside the band' computed from the harness's ledger of the previous block's closing price; paused-engine variants",
+    "C07": ("model_checking", "same liquidation histories: a failing Liquidate is proved to happen only when the position is NOT under-margined (or the fee is zero) for every value on the path; failures with the precondition satisfiable are counterexamples (one known finding: partial-liquidation margin underflow); band templates (symbolic fluctuation limit, a mover trade in the liquidation block explored exhaustively, pools priced 10 and 0.1) with 'already outside the band' computed from the harness's ledger of the previous block's closing price; paused-engine variants; the vAMM's price feed replaced before the liquidation (the oracle price is the harness's own record of what it submitted to the configured feed)",
             "DESIGN.md §4 C07"),
     "C08": ("model_checking", "same histories incl. naturally failing sub-messages (allowance/balance/limit/closed) plus FAULT INJECTION (the n-th call to the vAMM / cw20 / bank module / insurance fund / the engine's reply handler fails, one at a time, per template): an injected failure must fail the top-level call; after every transaction no tmp-swap / sent-funds / tmp-liquidator key remains; a failed transaction leaves raw storage of all contracts and all balances (semantically) identical",
             "DESIGN.md §4 C08"),
-    "C09": ("model_checking", "every privileged ExecuteMsg variant of all five contracts (23) x every sender kind (owner, pauser, engine, insurance fund, vAMM, trader, stranger, + new/old holders after a role transfer), enumerated exhaustively on fresh deployments with the repository's own price feed; payload amounts/ratios symbolic over the full range; non-role senders must be rejected with raw storage of all contracts and all balances unchanged, role holders must not be rejected for authorisation; 13 state-dependent variants (both flag values of SetOpen / SetPause in both states, list edits and shutdowns that ask for no change); a vAMM deployed without an insurance fund before and after an ownership transfer",
+    "C09": ("model_checking", "every privileged ExecuteMsg variant of all five contracts (23) x every sender kind (owner, pauser, engine, insurance fund, vAMM, trader, stranger, + new/old holders after a role transfer), enumerated exhaustively on fresh deployments with the repository's own price feed; payload amounts/ratios symbolic over the full range; non-role senders must be rejected with raw storage of all contracts and all balances unchanged, role holders must not be rejected for authorisation; 13 state-dependent variants (both flag values of SetOpen / SetPause in both states, list edits and shutdowns that ask for no change); a vAMM deployed without an insurance fund before and after an ownership transfer; fee-pool payouts naming the owner / new owner as recipient; role-gated calls after the owner re-pointed the vAMM's price feed / the engine's fee pool at an account without a role",
             "DESIGN.md §4 C09"),
-    "C10": ("model_checking", "same histories with 5 position holders: per transaction every other trader's whole Position record is proved equal term-for-term before and after (Liquidate: except the named trader); address-aliasing scenarios (position key = hash(vamm ++ trader): an attacker whose address is a suffix of the victim's sends each of the six engine messages with the crafted vamm string); every query of all five contracts leaves raw storage and balances bytewise unchanged",
+    "C10": ("model_checking", "same histories with 5 position holders: per transaction every other trader's whole Position record is proved equal term-for-term before and after (Liquidate: except the named trader); address-aliasing scenarios (position key = hash(vamm ++ trader): an attacker whose address is a suffix of the victim's sends each of the six engine messages with the crafted vamm string); every query of all five contracts leaves raw storage and balances bytewise unchanged; accounts whose names differ from the victim's only in letter case",
             "DESIGN.md §4 C10"),
     "C11": ("model_checking", "PayFunding at enumerated block times around the funding time ({-1,0,+1,+buffer..}) for periods {3600,5400,86400}, 1-3 settlements, net position of either sign (counter size symbolic), oracle price symbolic: success only at/after the funding time, cumulative fraction delta == trunc((vAMM TWAP - oracle TWAP) x period/day) from queries made before, next funding time >= now + period/2, exactly |net x fraction| moves vault<->insurance fund (capped at the vault balance); after a settlement every position operation (increase, reduce/reverse, withdraw, partial and whole close, deposit, partial liquidation) is checked for the exact funding charge and checkpoint movement",
             "DESIGN.md §4 C11"),
-    "C12": ("model_checking", "shared histories with toll and spread symbolic in [0,1] and amounts down to fee-rounds-to-zero: per transaction z3 proves fee-pool delta == floor(notional*toll), insurance-fund delta (net of recorded prepaid bad debt) == floor(notional*spread) with notional = floor(margin*leverage), once per reversal, the quoted fee on the open notional for whole closes, and zero for deposit/withdraw/funding/liquidation; the trader side of a whole close (wallet delta = equity - quoted fees, cw20 and native); witness seeds with toll = 0 and with spread = 0; a vAMM whose own insurance-fund field points elsewhere",
+    "C12": ("model_checking", "shared histories with toll and spread symbolic in [0,1] and amounts down to fee-rounds-to-zero: per transaction z3 proves fee-pool delta == floor(notional*toll), insurance-fund delta (net of recorded prepaid bad debt) == floor(notional*spread) with notional = floor(margin*leverage), once per reversal, the quoted fee on the open notional for whole closes, and zero for deposit/withdraw/funding/liquidation; the trader side of a whole close (wallet delta = equity - quoted fees, cw20 and native); witness seeds with toll = 0 and with spread = 0; a vAMM whose own insurance-fund field points elsewhere; the configured ratios come from a harness ledger of instantiation and owner updates, not from the vAMM's Config answer; the engine re-pointed at a second fee pool",
             "DESIGN.md §4 C12"),
-    "C13": ("model_checking", "twin deployments (native uwasm / cw20, 6 decimals, equal parameters) run the same symbolic history in lock-step inside one scenario, the native call attaching the sum of TransferFrom{owner: caller} amounts the cw20 twin delivered; per step z3 proves equality of Position records, vAMM state, engine state and per-account balance deltas (a relational property over two symbolic executions); funding settlements (symbolic oracle price) followed by close / opposite order / withdraw+increase+close / liquidation, partial closes under a band, fees fixed or symbolic in [0,10%], and 24 (thorough 120) generated lock-step histories",
+    "C13": ("model_checking", "twin deployments (native uwasm / cw20, 6 decimals, equal parameters) run the same symbolic history in lock-step inside one scenario, the native call attaching the sum of TransferFrom{owner: caller} amounts the cw20 twin delivered; per step z3 proves equality of Position records, vAMM state, engine state and per-account balance deltas (a relational property over two symbolic executions); funding settlements (symbolic oracle price) followed by close / opposite order / withdraw+increase+close / liquidation, partial closes under a band, fees fixed or symbolic in [0,10%], and 24 (thorough 120) generated lock-step histories; twins whose insurance funds hold one / three tokens only; the native twin on the other accepted denom (ujunox)",
             "DESIGN.md §4 C13"),
-    "C14": ("model_checking", "flags paused x closed x unregistered (7 non-trivial combinations) x 6 engine operations on a staged state with a liquidatable position and due funding, operation amounts symbolic, twin live deployment for 'pause does not block liquidation/funding'; registry histories of AddVamm/RemoveVamm over 4 addresses (all of length<=3, sampled length 5; thorough: all of length<=5) checked for duplicates/size/membership agreement; shutdown from every subset of already-closed vAMMs; '.band' variants (tight price band + 25% fraction so that ClosePosition / Liquidate take their partial arms); registry membership compared with a harness ledger of the owner's successful calls, removals in every order",
+    "C14": ("model_checking", "flags paused x closed x unregistered (7 non-trivial combinations) x 6 engine operations on a staged state with a liquidatable position and due funding, operation amounts symbolic, twin live deployment for 'pause does not block liquidation/funding'; registry histories of AddVamm/RemoveVamm over 4 addresses (all of length<=3, sampled length 5; thorough: all of length<=5) checked for duplicates/size/membership agreement; shutdown from every subset of already-closed vAMMs; '.band' variants (tight price band + 25% fraction so that ClosePosition / Liquidate take their partial arms); registry membership compared with a harness ledger of the owner's successful calls, removals in every order; an unregistered vAMM whose own insurance_fund setting names a second fund instance that lists it; paused native deployments",
             "DESIGN.md §4 C14"),
-    "C15": ("model_checking", "fluctuation limit, trade sizes and position size symbolic; band computed by the harness from the previous block's final price; successful opens (fresh / after in-block drift / reducing-reversing) proved to leave the spot price inside the band and to be rejected when it is already outside; ClosePosition with a 25% fraction: whole close only if the price after the whole close (vAMM quote) is inside, partial closes exactly the configured fraction; block patterns enumerated",
+    "C15": ("model_checking", "fluctuation limit, trade sizes and position size symbolic; band computed by the harness from the previous block's final price; successful opens (fresh / after in-block drift / reducing-reversing) proved to leave the spot price inside the band and to be rejected when it is already outside; ClosePosition with a 25% fraction: whole close only if the price after the whole close (vAMM quote) is inside, partial closes exactly the configured fraction; block patterns enumerated; one / four blocks without any trade before the block under test",
             "DESIGN.md §4 C15"),
-    "C16": ("model_checking", "all event sequences of length 3 (sampled length 4; thorough: all) over {trades by bob / liquidator / bystander / alice, closes, liquidation of alice, next block} on a staged liquidatable position (full and partial liquidation): an Open/Close by a trader whose Position.block_number is the current block after a liquidation in that block is rejected with storage and balances unchanged, nobody else is rejected for that reason; dedicated orderings with symbolic amounts; liquidation fee symbolic down to zero in the dedicated orderings; two-vAMM scenarios (a liquidation on one vAMM restricts second actions on that vAMM only)",
+    "C16": ("model_checking", "all event sequences of length 3 (sampled length 4; thorough: all) over {trades by bob / liquidator / bystander / alice, closes, liquidation of alice, next block} on a staged liquidatable position (full and partial liquidation): an Open/Close by a trader whose Position.block_number is the current block after a liquidation in that block is rejected with storage and balances unchanged, nobody else is rejected for that reason; dedicated orderings with symbolic amounts; liquidation fee symbolic down to zero in the dedicated orderings; two-vAMM scenarios (a liquidation on one vAMM restricts second actions on that vAMM only); partial-liquidation ratio at exactly 100 %",
             "DESIGN.md §4 C16"),
     "C17": ("model_checking", "vAMM alone from ALL reserve pairs with symbolic amount and limit: InputAmount/OutputAmount query before == reserve deltas, net-position delta and event attributes after; limit semantics with the limit on both sides of the executed amount; through the engine the limit inside the delivered vAMM sub-message is proved equal to the caller's on fresh/increase/reduce/whole close; whole close that leaves the band under a 100% fraction, and whole liquidation (partial ratio 0), each with a symbolic limit",
             "DESIGN.md §4 C17"),
     "C20": ("model_checking", "engine UpdateConfig with each optional ratio absent|symbolic over the full range (all 15 masks, sequences of 2-3, symbolic instantiate ratios), vAMM instantiate/UpdateConfig likewise with the twap interval from the boundary set; after every call z3 proves all stored ratios <= 1 and maintenance <= initial; AddVamm x decimals enumerated; caps: symbolic open-interest and holding caps, whitelist enumerated, caps changed between trades, margins symbolic",
             "DESIGN.md §4 C20"),
-    "C18": ("model_checking", "vAMM alone on enumerated block schedules (gaps, several trades per block incl. an extreme intermediate price, queries in the trading block) with symbolic swap amounts: TwapPrice for intervals shorter/equal/longer than the history is proved to lie within the end-of-block spot prices in effect during the window and to equal the spot when unchanged; one snapshot per traded block; the repository's price feed with symbolic prices at enumerated timestamps: TWAP within the submitted prices overlapping the window, latest / n-rounds-back return exactly what was submitted; histories of 9 and 27 days with windows around and beyond one week",
+    "C18": ("model_checking", "vAMM alone on enumerated block schedules (gaps, several trades per block incl. an extreme intermediate price, queries in the trading block) with symbolic swap amounts: TwapPrice for intervals shorter/equal/longer than the history is proved to lie within the end-of-block spot prices in effect during the window and to equal the spot when unchanged; one snapshot per traded block; the repository's price feed with symbolic prices at enumerated timestamps: TWAP within the submitted prices overlapping the window, latest / n-rounds-back return exactly what was submitted; histories of 9 and 27 days with windows around and beyond one week; 150 (thorough 400) consecutive traded blocks; schedules on a vAMM with a 5 % price band; feed rounds sent as AppendMultiplePrice batches onto an existing history",
             "DESIGN.md §4 C18"),
     "C19": ("model_checking", "two engines: (1) Kani/CBMC bit-precise harnesses over ALL 2^129 operand representations (incl. -0) for add/sub/neg/abs/constructors/cmp/eq/sign predicates and checked-vs-unchecked agreement, loop-free so complete for the input space (thorough adds full-width checked_mul); (2) symx/z3 for full-width mul, truncating div, add/sub, ordering and the Display/FromStr/serde round trip with symbolic 128-bit magnitudes",
             "DESIGN.md §3, §4 C19"),
